@@ -624,94 +624,7 @@ fn debug(c: &DebugCase, _ctx: &Ctx) -> Out {
 // parsing
 // ------------------------------------------------------------------------------------------------
 
-/// entry: 0 `FromStr`, 1 `from_str_radix(text, radix)`, 2 `from_str_with_radix_prefix(text)`,
-/// 3 `from_str_with_radix_default(text, radix)`
-#[derive(Debug, Clone, Hash, Serialize, Deserialize)]
-struct ParseCase {
-    text: String,
-    radix: u32,
-    entry: u8,
-}
-const ENTRY: [&str; 4] = ["from_str", "from_str_radix", "from_str_with_radix_prefix", "from_str_with_radix_default"];
-
-#[derive(Debug, Clone, PartialEq)]
-enum Want {
-    /// valid text: value and the radix reported by the prefix-aware entry points
-    Val(BigInt, u32),
-    /// nothing after the optional sign / prefix
-    NoDigits,
-    /// a character that is neither an underscore nor a digit of the radix
-    Invalid,
-    /// `from_str_radix` with a radix outside 2..=36
-    BadRadix,
-    /// non-empty body made of underscores only
-    UnderscoreOnly(u32),
-    /// `from_str_with_radix_default` with a default radix outside 2..=36 and no prefix in the text
-    BadDefault,
-}
-
-fn digit_val(c: char) -> Option<u32> {
-    match c {
-        '0'..='9' => Some(c as u32 - '0' as u32),
-        'a'..='z' => Some(c as u32 - 'a' as u32 + 10),
-        'A'..='Z' => Some(c as u32 - 'A' as u32 + 10),
-        _ => None,
-    }
-}
-fn radix_ok(r: u32) -> bool {
-    (2..=36).contains(&r)
-}
-
-/// Reference parser written from the rustdoc of the entry points (parse/mod.rs):
-/// UBig: optional `+`; IBig: optional `+` or `-`; the `_with_radix_` entry points then accept one of
-/// the prefixes `0b`, `0o`, `0x` ("before the radix prefix" for the sign), otherwise the default
-/// radix applies; digits 10-35 are `a-z` or `A-Z`; underscores separate digits (CHANGELOG 0.2.0).
-fn ref_parse(text: &str, entry: u8, radix: u32, signed: bool) -> Want {
-    if entry == 1 && !radix_ok(radix) {
-        return Want::BadRadix;
-    }
-    let mut rest = text;
-    let mut neg = false;
-    if let Some(t) = rest.strip_prefix('+') {
-        rest = t;
-    } else if signed {
-        if let Some(t) = rest.strip_prefix('-') {
-            rest = t;
-            neg = true;
-        }
-    }
-    let mut rdx = if entry == 0 || entry == 2 { 10 } else { radix };
-    if entry >= 2 {
-        for (p, r) in [("0b", 2), ("0o", 8), ("0x", 16)] {
-            if let Some(t) = rest.strip_prefix(p) {
-                rest = t;
-                rdx = r;
-                break;
-            }
-        }
-    }
-    if !radix_ok(rdx) {
-        return Want::BadDefault;
-    }
-    if rest.is_empty() {
-        return Want::NoDigits;
-    }
-    let mut digits = Vec::with_capacity(rest.len());
-    for ch in rest.chars() {
-        if ch == '_' {
-            continue;
-        }
-        match digit_val(ch) {
-            Some(d) if d < rdx => digits.push(d as u8),
-            _ => return Want::Invalid,
-        }
-    }
-    if digits.is_empty() {
-        return Want::UnderscoreOnly(rdx);
-    }
-    let m = BigUint::from_radix_be(&digits, rdx).expect("reference digits");
-    Want::Val(if neg { -BigInt::from(m) } else { BigInt::from(m) }, rdx)
-}
+use dv::ptext::{decode_parse_case, radix_ok, ref_parse, ParseCase, Want, ENTRY};
 
 type Parsed = Result<Result<(BigInt, u32), ParseError>, String>;
 
@@ -1515,6 +1428,75 @@ fn chunks_raw(c: &RawChunks, ctx: &Ctx) -> Out {
 
 // ------------------------------------------------------------------------------------------------
 
+// ------------------------------------------------------------------------------------------------
+// thorough tier: coverage-guided campaign over the four parse entry points (libFuzzer + ASan)
+// ------------------------------------------------------------------------------------------------
+
+fn fuzz_tier(ck: &mut Check, runs: u64) {
+    let seed = (ck.seed % 0x7fff_fffe) + 1;
+    let scratch = std::env::var("DV_SCRATCH").unwrap_or_else(|_| "/verif/target".into());
+    let harness = std::env::var("DV_HARNESS").unwrap_or_else(|_| "/verif/harness".into());
+    let corpus = &format!("{scratch}/c07-fuzz-corpus");
+    let artifacts = format!("{scratch}/c07-fuzz-artifacts");
+    let _ = std::fs::remove_dir_all(corpus);
+    let _ = std::fs::create_dir_all(corpus);
+    let _ = std::fs::create_dir_all(&artifacts);
+    let mut cmd = std::process::Command::new("cargo");
+    cmd.current_dir(&harness)
+        .args(["+nightly", "fuzz", "run", "int_text", corpus, &format!("{harness}/fuzz/corpus-seed/int_text"), "--"])
+        .arg(format!("-runs={runs}"))
+        .arg(format!("-seed={seed}"))
+        .args(["-len_control=0", "-max_len=6000", &format!("-artifact_prefix={artifacts}/"), "-print_final_stats=1"])
+        .env("CARGO_NET_OFFLINE", "true")
+        .env("RUSTFLAGS", "--cfg dashu_verif");
+    let (code, outp) = match cmd.output() {
+        Ok(o) => (o.status.code().unwrap_or(-1), format!("{}{}", String::from_utf8_lossy(&o.stdout), String::from_utf8_lossy(&o.stderr))),
+        Err(e) => (-1, format!("cannot run: {e}")),
+    };
+    let stat = |k: &str| outp.lines().find_map(|l| l.strip_prefix(k).map(|s| s.trim().parse::<u64>().unwrap_or(0))).unwrap_or(0);
+    let execs = stat("stat::number_of_executed_units:");
+    // corpus = inputs that reached new coverage: the measured count of distinct non-trivial cases
+    let corpus_n = std::fs::read_dir(corpus).map(|d| d.count() as u64).unwrap_or(0);
+    let mut labels = std::collections::BTreeMap::new();
+    labels.insert("fuzz: executions (libFuzzer + ASan)", execs);
+    labels.insert("fuzz: corpus entries with new coverage", corpus_n);
+    let mut samples = vec![];
+    if let Ok(rd) = std::fs::read_dir(corpus) {
+        for e in rd.flatten().take(3) {
+            if let Ok(b) = std::fs::read(e.path()) {
+                let c = decode_parse_case(&b);
+                samples.push(serde_json::json!({"entry": ENTRY[c.entry as usize], "radix": c.radix, "text": clip(&c.text)}));
+            }
+        }
+    }
+    let mut viol = None;
+    if code != 0 {
+        let art = outp.lines().find_map(|l| l.find("Test unit written to ").map(|i| l[i + 21..].trim().to_string()));
+        match art.and_then(|p| std::fs::read(p).ok()) {
+            Some(bytes) => {
+                // the verdict is the parse oracle's, not the finder's
+                let c = decode_parse_case(&bytes);
+                let ctx = Ctx { tier: Tier::Thorough, known: ck.known(), strict: false };
+                let out = parse_oracle(&c, &ctx);
+                match &out.verdict {
+                    Verdict::Violation(sig) => viol = Some((format!("found by libFuzzer target int_text: {sig}"), serde_json::to_value(&c).unwrap())),
+                    _ => println!("INCONCLUSIVE: the fuzz target stopped on an input that the parse oracle accepts ({:?}): {}", out.verdict, truncate(&outp, 400)),
+                }
+            }
+            None => println!("INCONCLUSIVE: fuzz run ended with status {code} but no artifact was found: {}", truncate(&outp, 600)),
+        }
+    }
+    ck.external(
+        "parse_invalid@libfuzzer-asan",
+        execs,
+        corpus_n.min(execs),
+        labels,
+        samples,
+        viol,
+        Some(serde_json::json!({"engine": "cargo-fuzz libFuzzer + AddressSanitizer, target int_text (dv::ptext::decode_parse_case + parse_disagreement; verdict by parse_oracle)", "runs_requested": runs, "seed": seed, "max_len": 6000})),
+    );
+}
+
 fn main() {
     let mut ck = Check::new(
         "C07",
@@ -1556,5 +1538,9 @@ fn main() {
         chunks,
     );
     ck.sub("chunks_raw", (5_000, 75_000), || (proptest::collection::vec(gen::nat(Prof::Small), 0..7), chunk_bits()).prop_map(|(chunks, k)| RawChunks { chunks, k }), chunks_raw);
+    if th && !ck.is_replay() && ck.wants("parse_invalid") {
+        let runs = (2_000_000.0 * ck.scale) as u64;
+        fuzz_tier(&mut ck, runs.max(20_000));
+    }
     ck.finish();
 }
